@@ -96,7 +96,9 @@ type Step struct {
 	Abs          bool   `json:"abs,omitempty"`
 	HashAlg      uint   `json:"hashAlg,omitempty"` // 0: first configured
 	Kid          string `json:"kid,omitempty"`
-	Replay       int    `json:"replay,omitempty"` // n > 0: re-anchor the bytes of the n-th most recent operation this wallet authored for the DID
+	Replay       int    `json:"replay,omitempty"`   // n > 0: re-anchor the bytes of the n-th most recent operation this wallet authored for the DID
+	PadDelta     int    `json:"padDelta,omitempty"` // 1: pad the delta to exactly MaxDeltaSize (canonical bytes); 2: one byte below; 3: one byte above (invalid)
+	PadKind      int    `json:"padKind,omitempty"`  // which characters the padding contains (encoders disagree on the length of some)
 
 	// network fate of the message carrying the submit
 	Delay    int  `json:"delay,omitempty"` // seconds
